@@ -288,7 +288,9 @@ class Matcher:
                         merged["members"].append(m)
                 src_items = [merged]
             for it in src_items:
+                src_it = it
                 it = dict(it)
+                it["_src"] = src_it
                 it["_x"] = xi
                 it["_left"] = {}
                 for m in it["members"]:
@@ -361,6 +363,10 @@ class Matcher:
             else:
                 self.check_bound(ctx, r, placed)
             self.check_member(ctx, r, mem, placed, level)
+        for it in items:
+            if it["g"] == "guards":
+                # (exposed for clauses about the order of guard evaluation inside one candidate)
+                it["_src"]["_seen"] = [r["c"] for r, _m in sorted(it["_got"], key=lambda x: x[0]["q"])]
         for it in items[p:]:
             if not self.satisfied(it):
                 miss = [c for c, l in it["_left"].items() for m in l if not m.get("optional")]
